@@ -96,7 +96,7 @@ func mustObserve() []string {
 func plan(tier string, seed int64) []kit.Batch {
 	n, nreq, maxHTTP, reps := 5, 400, 150, 1
 	if tier == "thorough" {
-		n, nreq, maxHTTP, reps = 40, 1500, 600, 3
+		n, nreq, maxHTTP, reps = 25, 1000, 500, 2
 	}
 	var bs []kit.Batch
 	for rep := 0; rep < reps; rep++ {
@@ -483,26 +483,26 @@ func run(b kit.Batch, r *kit.R) {
 
 		// ---- verdicts
 		if e, _ := httpErr.Load().(string); e != "" {
-			c.Failf("c40/"+prm.Profile+"/request-aborted:"+strings.SplitN(e, " ", 2)[0], "%s", e)
+			c.Failf("c40/request-aborted/"+strings.SplitN(e, " ", 2)[0]+"/"+prm.Profile, "%s", e)
 		}
 		r.Count("inspection_requests_aborted_by_the_serializer(unsupported_kind)", serializerAborts.Load())
 		if simPanic != "" {
-			c.Fail("c40/"+prm.Profile+"/simulation-panicked-under-monitor-requests", map[string]any{"panic": simPanic, "cfg": cfg})
+			c.Fail("c40/simulation-panicked-under-monitor-requests/"+prm.Profile, map[string]any{"panic": simPanic, "cfg": cfg})
 		} else if runErr != nil {
-			c.Failf("c40/"+prm.Profile+"/run-error", "%v", runErr)
+			c.Failf("c40/run-error/"+prm.Profile, "%v", runErr)
 		}
 		got := a.outcome()
 		ticked := stats["tick"] != nil && stats["tick"].total > 0
 		if simPanic == "" {
 			if ticked {
 				if got.weak() != want.weak() {
-					c.Fail("c40/"+prm.Profile+"/outcome-differs-from-unmonitored-run", map[string]any{"compared": "completion, counts, data errors (tick requests were issued)",
+					c.Fail("c40/outcome-differs-from-unmonitored-run/"+prm.Profile, map[string]any{"compared": "completion, counts, data errors (tick requests were issued)",
 						"monitored": got, "unmonitored": want, "cfg": cfg})
 				}
 				r.Count("runs_compared_with_unmonitored_run(completion_and_data_only)", 1)
 			} else {
 				if got.full() != want.full() {
-					c.Fail("c40/"+prm.Profile+"/outcome-differs-from-unmonitored-run", map[string]any{"compared": "full outcome", "monitored": got, "unmonitored": want, "cfg": cfg})
+					c.Fail("c40/outcome-differs-from-unmonitored-run/"+prm.Profile, map[string]any{"compared": "full outcome", "monitored": got, "unmonitored": want, "cfg": cfg})
 				}
 				r.Count("runs_compared_with_unmonitored_run(full_outcome)", 1)
 			}
